@@ -199,6 +199,10 @@ func (r *gatewayController) buildCanaryHeaderHttpRoutes(rules []gatewayv1beta1.H
 		if len(nonPathMatches) == 0 && len(newMatches) == 0 {
 			continue
 		}
+		// a rule stored with an explicitly empty matches list matches every request: combine with that
+		if len(canaryRule.Matches) == 0 {
+			canaryRule.Matches = []gatewayv1beta1.HTTPRouteMatch{{}}
+		}
 		for j := range canaryRule.Matches {
 			canaryRuleMatch := &canaryRule.Matches[j]
 			for k := range nonPathMatches {
